@@ -23,6 +23,14 @@ type halfPipe struct {
 	record   *[]byte
 	recMu    *sync.Mutex
 	deadline time.Time
+	waiting  int // readers blocked on an empty queue
+}
+
+// idle: everything written has been consumed and a reader is blocked waiting for more
+func (h *halfPipe) idle() bool {
+	h.mu.Lock()
+	defer h.mu.Unlock()
+	return len(h.chunks) == 0 && h.waiting > 0
 }
 
 type hpChunk struct {
@@ -83,6 +91,7 @@ func (h *halfPipe) read(p []byte) (int, error) {
 		if !h.deadline.IsZero() && !time.Now().Before(h.deadline) {
 			return 0, os.ErrDeadlineExceeded
 		}
+		h.waiting++
 		if !h.deadline.IsZero() {
 			d := time.Until(h.deadline)
 			t := time.AfterFunc(d, func() { h.mu.Lock(); h.cond.Broadcast(); h.mu.Unlock() })
@@ -91,6 +100,7 @@ func (h *halfPipe) read(p []byte) (int, error) {
 		} else {
 			h.cond.Wait()
 		}
+		h.waiting--
 	}
 }
 
